@@ -230,6 +230,15 @@ func (t *tr) expr(e ast.Expr) string {
 			return x.Name
 		}
 		return leanName(x.Name)
+	case *ast.SelectorExpr:
+		if id, ok := x.X.(*ast.Ident); ok {
+			if _, isVar := t.info.Uses[id].(*types.Var); isVar {
+				if _, ok := t.typeOfExpr(x); ok {
+					return leanName(id.Name + "_" + x.Sel.Name)
+				}
+			}
+		}
+		return t.fail(e, "selector %s", src(t.fset, x))
 	case *ast.UnaryExpr:
 		a := t.expr(x.X)
 		switch x.Op {
@@ -341,8 +350,11 @@ func (t *tr) binary(x *ast.BinaryExpr) string {
 		return "(" + a + " >>> " + t.natOf(x.Y) + ")"
 	case token.QUO, token.REM:
 		tvy := t.info.Types[x.Y]
-		if tvy.Value == nil || constant.Sign(tvy.Value) == 0 {
-			return t.fail(x, "division by a non-constant or zero divisor")
+		if tvy.Value != nil && constant.Sign(tvy.Value) == 0 {
+			return t.fail(x, "division by the constant zero")
+		}
+		if tvy.Value == nil {
+			t.notes = append(t.notes, fmt.Sprintf("%s: %s: a zero divisor is totalised (BitVec: x / 0 = 0, x %% 0 = x)", t.curFn, src(t.fset, x)))
 		}
 		if x.Op == token.QUO {
 			if ly.signed {
@@ -881,6 +893,19 @@ func (t *tr) segment(fd *ast.FuncDecl, sg Segment) string {
 	seen := map[types.Object]bool{}
 	for _, s := range seg {
 		ast.Inspect(s, func(n ast.Node) bool {
+			if se, ok := n.(*ast.SelectorExpr); ok {
+				if id, ok := se.X.(*ast.Ident); ok {
+					if v, isVar := t.info.Uses[id].(*types.Var); isVar && !(v.Pos() >= lo && v.Pos() < hi) {
+						if y, ok := t.typeOfExpr(se); ok {
+							if fo := t.info.Uses[se.Sel]; fo != nil && !seen[fo] {
+								seen[fo] = true
+								ins = append(ins, inp{id.Name + "_" + se.Sel.Name, v.Pos(), y})
+							}
+							return false
+						}
+					}
+				}
+			}
 			id, ok := n.(*ast.Ident)
 			if !ok {
 				return true
